@@ -404,5 +404,8 @@ func (h *FBDNSDB) ReportBackendStats() {
 
 // ValidateDbKey checks whether record of certain key is in db
 func (h *FBDNSDB) ValidateDbKey(dbKey []byte) error {
+	// can be called while a reload swaps h.dnsdb
+	h.reloadMu.RLock()
+	defer h.reloadMu.RUnlock()
 	return h.dnsdb.ValidateDbKey(dbKey)
 }
